@@ -25,10 +25,29 @@ typedef struct {                       /* RitzPairs<Scalar> */
   _Bool *m_root_converged;
   Scalar *g_norms;                     /* ghost: the column norms of m_residues that the flags were computed from */
   Index st_pairs, st_conv;             /* ghost stamps: when (values, vectors, residues) were produced / which pairs the flags describe */
+  _Bool g_cc_ret; Index g_cc_nev;      /* ghost: result and nev argument of the last check_convergence() */
+  SortRule g_sorted_sel;               /* ghost: rule the current pairs were last sorted by (-1: not sorted since they were computed) */
+  Index n_values, n_flags, n_norms;    /* capacity mode only (CAPMODE): current Eigen sizes of m_values/tag_val, m_root_converged, g_norms */
 } RP;
+/* Eigen sizes of the vector members.  Callee proofs: the arrays are allocated with exactly the Eigen size (VEC_SIZE).  The caller-level proof of
+ * compute_with_guess runs in CAPACITY MODE: dfcc forbids allocation inside a loop that carries a loop contract and CBMC cannot follow a havocked pointer, so
+ * there the arrays are allocated once with capacity NMAX, callee stubs havoc them in place, and the Eigen size is a ghost field. */
+#ifdef CAPMODE
+#define NVALS(rp) ((rp)->n_values)
+#define NTAGS(rp) ((rp)->n_values)
+#define NFLAGS(rp) ((rp)->n_flags)
+#define NNORMS(rp) ((rp)->n_norms)
+#else
+#define NVALS(rp) VEC_SIZE((rp)->m_values)
+#define NTAGS(rp) VEC_SIZE((rp)->tag_val)
+#define NFLAGS(rp) VEC_SIZE((rp)->m_root_converged)
+#define NNORMS(rp) VEC_SIZE((rp)->g_norms)
+#endif
+
 typedef struct { Mat m_basis_vectors, m_op_basis_product; } SS;   /* SearchSpace<Scalar> */
 typedef struct {                       /* JDSymEigsBase / DavidsonSymEigsSolver */
   Index op_n;                          /* m_matrix_operator.rows() == cols() */
+  Op *op;
   Index niter_, m_number_eigenvalues, m_max_search_space_size, m_initial_search_space_size, m_correction_size;
   RP m_ritz_pairs; SS m_search_space; CompInfo m_info;
   Scalar *m_diagonal;
@@ -48,13 +67,76 @@ ALLOC_RP = r'''
   self->m_values = VEC_NEW(ND_SIZE()); self->tag_val = IVEC_NEW(VEC_SIZE(self->m_values));
   self->m_small_vectors = MAT_NEW(ND_SIZE(), ND_SIZE()); self->m_vectors = MAT_NEW(ND_SIZE(), ND_SIZE()); self->m_residues = MAT_NEW(ND_SIZE(), ND_SIZE());
   self->m_root_converged = BVEC_NEW(ND_SIZE()); self->g_norms = VEC_NEW(ND_SIZE());
-  self->st_pairs = nondet_Index(); self->st_conv = nondet_Index();
+  self->st_pairs = nondet_Index(); self->st_conv = nondet_Index(); self->g_cc_ret = nondet_bool(); self->g_cc_nev = nondet_Index(); self->g_sorted_sel = nondet_int();
   g_i = nondet_Index(); g_j = nondet_Index(); g_p = nondet_Index(); g_w = -1;
 '''
 
 RP_SHAPES = ("VEC_SIZE(self->tag_val) == VEC_SIZE(self->m_values) && self->m_vectors.cols == VEC_SIZE(self->m_values) && "
              "self->m_residues.cols == VEC_SIZE(self->m_values) && self->m_small_vectors.cols == VEC_SIZE(self->m_values) && "
              "self->m_small_vectors.rows == VEC_SIZE(self->m_values) && self->m_residues.rows == self->m_vectors.rows")
+
+
+_CAP_RX = re.compile(r"VEC_SIZE\(((?:[\w]|->|\.)+?)(->|\.)(m_values|tag_val|m_root_converged|g_norms)\)")
+_CAP_NM = {"m_values": "NVALS", "tag_val": "NTAGS", "m_root_converged": "NFLAGS", "g_norms": "NNORMS"}
+
+
+def capify_text(e):
+    return _CAP_RX.sub(lambda m: "%s(%s%s)" % (_CAP_NM[m.group(3)], "" if m.group(2) == "->" else "&", m.group(1)), e)
+
+
+def capify(spec):
+    """Write the Eigen sizes of the RitzPairs vector members through the NVALS/NTAGS/NFLAGS/NNORMS macros, so that ONE clause text serves the callee
+    proof (exact-size arrays) and the capacity-mode stub used by compute_with_guess."""
+    for lst in (spec.pre, spec.post, spec.exc_post):
+        lst[:] = [(lab, capify_text(e)) for lab, e in lst]
+    spec.olds = [(ty, nm, capify_text(e)) for ty, nm, e in spec.olds]
+    return spec
+
+
+CAP_VECS = {"m_values": "n_values", "tag_val": None, "m_root_converged": "n_flags", "g_norms": "n_norms"}
+
+
+def cap_stub(spec, mats=(), extra=""):
+    """Call-site stub for capacity mode: like FSpec.stub(), but a frame entry that is a vector member is havocked IN PLACE (its ghost size field becomes
+    nondeterministic) and a frame entry that is a Mat gets nondeterministic dimensions and an in-place havoc of its column tags - no allocation, no pointer havoc."""
+    L = ["/* capacity-mode contract stub of %s (%s): assert PRE, havoc FRAME in place, assume POST */" % (spec.cname, spec.real), spec.proto() + " {"]
+    for lab, e in spec.pre:
+        L.append('  __CPROVER_assert(%s, "precondition of %s at call site: %s");' % (e, spec.cname, lab.replace('"', "'")))
+    for ty, nm, e in spec.olds:
+        L.append("  %s %s = %s;" % (ty, nm, e))
+    for lv in spec.frame:
+        base = re.split(r"->|\.", lv)[-1]
+        owner = lv[:len(lv) - len(base)]
+        if base in CAP_VECS:
+            L.append("  __CPROVER_havoc_object(%s);" % lv)
+            if CAP_VECS[base]:
+                L.append("  { Index verif_n = nondet_Index(); __CPROVER_assume(0 <= verif_n && verif_n <= g_cap); %s%s = verif_n; }" % (owner, CAP_VECS[base]))
+        elif base in mats:
+            L.append("  { Index verif_r = nondet_Index(), verif_c = nondet_Index(); __CPROVER_assume(0 <= verif_r && verif_r <= g_cap && 0 <= verif_c && verif_c <= g_cap); "
+                     "%s.rows = verif_r; %s.cols = verif_c; __CPROVER_havoc_object(%s.coltag); %s.cell = nondet_Scalar(); }" % (lv, lv, lv, lv))
+        elif base in ("m_ritz_pairs", "m_search_space"):
+            raise X.ExtractionBreak("cap_stub: whole-object frame entry %s" % lv)
+        elif base in ("n_values", "n_flags", "n_norms", "rows", "cols"):
+            L.append("  { Index verif_n = nondet_Index(); __CPROVER_assume(0 <= verif_n && verif_n <= g_cap); %s = verif_n; }" % lv)
+        else:
+            L.append("  { __typeof__(%s) verif_nd; %s = verif_nd; }" % (lv, lv))
+    for ob in spec.frame_objs:
+        L.append("  __CPROVER_havoc_object(%s);" % ob)
+    if spec.ret_c != "void":
+        L.append("  %s ret;" % spec.ret_c)
+    if extra:
+        L.append("  " + extra)
+    if spec.may_throw:
+        L.append("  if (nondet_bool()) { int verif_e = nondet_int(); __CPROVER_assume(%s); verif_exc = verif_e;" % " || ".join("verif_e == %d" % c for c in spec.may_throw))
+        for lab, e in spec.exc_post:
+            L.append("    __CPROVER_assume(%s);" % e)
+        L.append("    return%s; }" % ("" if spec.ret_c == "void" else " ret"))
+    for lab, e in spec.post:
+        L.append("  __CPROVER_assume(%s);" % e)
+    L.append("  return%s;" % ("" if spec.ret_c == "void" else " ret"))
+    L.append("}")
+    return "\n".join(L) + "\n"
+
 
 
 def check_members(report):
@@ -92,8 +174,10 @@ def f_check_convergence(report):
                         "!ret || !(0 <= g_i && g_i < number_eigenvalues && g_i < self->m_residues.cols) || (self->g_norms[g_i] < tol)"),
                        ("returns false only if one of the first nev pairs has a residual norm that is not < tol (witness)",
                         "ret || (0 <= g_w && g_w < number_eigenvalues && g_w < self->m_residues.cols && !(self->g_norms[g_w] < tol))"),
-                       ("the flags describe the current Ritz pairs", "self->st_conv == self->st_pairs")],
-                 frame=["self->m_root_converged", "self->g_norms", "self->st_conv", "g_w"], real=RPH + ":check_convergence")
+                       ("the flags describe the current Ritz pairs", "self->st_conv == self->st_pairs"),
+                       ("ghost record of this call", "self->g_cc_ret == ret && self->g_cc_nev == number_eigenvalues")],
+                 frame=["self->m_root_converged", "self->g_norms", "self->st_conv", "g_w", "self->g_cc_ret", "self->g_cc_nev"], real=RPH + ":check_convergence")
+    capify(spec)
     inv = ("__CPROVER_assigns(%(J)s, %(CV)s, g_w, __CPROVER_object_whole(self->m_root_converged)) "
            "__CPROVER_loop_invariant(0 <= %(J)s && %(J)s <= VEC_SIZE(norms) && (%(CV)s == 0 || %(CV)s == 1)) "   # a C _Bool holds 0 or 1 (dfcc havocs the byte)
            "__CPROVER_loop_invariant(!(0 <= g_i && g_i < %(J)s) || (self->m_root_converged[g_i] == (norms[g_i] < tol))) "
@@ -106,6 +190,7 @@ def f_check_convergence(report):
                                   ("size", r"\bnorms\.size\(\)", "VEC_SIZE(norms)", {"min": 1}),
                                   ("bool", r"\bbool\b", "_Bool", {"min": 1}),
                                   # ghost witness for the `false` direction: the first requested pair that failed the test
+                                  ("ret-ghost", r"return (\w+);", r"self->g_cc_ret = \1; self->g_cc_nev = number_eigenvalues; return \1;", {"max": 1}),
                                   ("witness", r"((?<!Bool )\b%s\s*(?:&=|=)(?!=)[^;]*;)" % CV, r"\1 if (!%s && g_w < 0) g_w = %s;" % (CV, J), {"min": 1}),
                                   ],
                      loop_contracts={0: inv}, contract=spec.frame_contract())
@@ -176,7 +261,7 @@ def f_sort(report):
     if not ml:
         raise X.ExtractionBreak("RitzPairs::sort: loop over the pairs not recognised")
     J = ml.group(1)
-    spec = sort_spec()
+    spec = capify(sort_spec())
     K = "VEC_SIZE(temp.m_values)"
     tagged = lambda gi, gia, gv: ("__CPROVER_loop_invariant(!(0 <= %(gi)s && %(gi)s < %(J)s) || (self->tag_val[%(gi)s] == temp.tag_val[%(gia)s] && "
                                   "self->m_vectors.coltag[%(gi)s] == temp.m_vectors.coltag[%(gia)s] && self->m_residues.coltag[%(gi)s] == temp.m_residues.coltag[%(gia)s] && "
@@ -198,10 +283,676 @@ def f_sort(report):
                                   ("small-copy",) + col("m_small_vectors") + ({"max": 1},)],
                      loop_contracts={0: inv}, contract=spec.frame_contract(), maythrow=["argsort"])
     report["RitzPairs::sort"] = R.fired
-    ordf = skel.NANEQ_DEF + "#define NOTNAN(v) ((v) == (v))\n" + \
+    return SORT_DEFS + sort_order_defs() + t, spec
+
+
+def sort_order_defs():
+    return skel.NANEQ_DEF + "#define NOTNAN(v) ((v) == (v))\n" + \
         "".join("static _Bool verif_sorted_%s(SortRule selection, Scalar va, Scalar vb) { return %s; }\n" % (r, cl)
                 for r, cl in skel.ordered_clause("") if r in SORT_RULES_REAL)
-    return SORT_DEFS + ordf + t, spec
+
+
+# --------------------------------------------------------------------------- shapes of Eigen expressions (mechanical, generic)
+# The Davidson bookkeeping functions consist of a handful of dense expressions.  Their floating-point values are dropped; what is kept is what
+# Eigen itself asserts about them: block selectors inside the matrix, inner dimensions of products, equal shapes of sums.  Grammar accepted:
+#   expr := term (('+'|'-') term)* ;  term := factor ('*' factor)* ;  factor := NAME ('.transpose()' | '.leftCols(e)' | '.rightCols(e)' | '.asDiagonal()')*
+# NAME is a Mat lvalue, a vector lvalue (asDiagonal only) or the operator.  Anything else is an extraction break.
+
+class Shape:
+    def __init__(self, rows, cols, checks, tag, opapply=False):
+        self.rows, self.cols, self.checks, self.tag, self.opapply = rows, cols, checks, tag, opapply
+
+
+SEL_RX = r"\.(transpose|asDiagonal|leftCols|rightCols)\(((?:[^()]|\([^()]*\))*)\)"
+SEL_NC = r"\.(?:transpose|asDiagonal|leftCols|rightCols)\((?:[^()]|\([^()]*\))*\)"
+
+
+def _factor(txt, mats, vecs, opname, g):
+    m = re.match(r"^([\w>-]+(?:\.\w+(?![\w(]))*)((?:%s)*)$" % SEL_NC, txt.strip())
+    if not m:
+        raise X.ExtractionBreak("shape rules: cannot parse factor %r" % txt)
+    nm, sels = m.group(1), m.group(2)
+    base = nm.split("->")[-1].split(".")[-1]
+    if opname and nm == opname:
+        if sels:
+            raise X.ExtractionBreak("shape rules: selector on the operator: %r" % txt)
+        return Shape("%s->n" % opname, "%s->n" % opname, [], None, opapply=True)
+    if base in vecs:
+        if sels != ".asDiagonal()":
+            raise X.ExtractionBreak("shape rules: vector factor without asDiagonal(): %r" % txt)
+        tg = vecs[base]
+        return Shape("VEC_SIZE(%s)" % nm, "VEC_SIZE(%s)" % nm, [], ("%s[%s]" % (tg.replace("@", nm), g)) if tg else None)
+    if base not in mats:
+        raise X.ExtractionBreak("shape rules: %r is not a known matrix/vector/operator" % nm)
+    rows, cols, checks, tag = "%s.rows" % nm, "%s.cols" % nm, [], "%s.coltag[%s]" % (nm, g)
+    for sm in re.finditer(SEL_RX, sels):
+        k, a = sm.group(1), sm.group(2).strip()
+        if k == "transpose":
+            rows, cols, tag = cols, rows, None
+        elif k == "leftCols":
+            checks.append("__CPROVER_assert(0 <= (%s) && (%s) <= %s, @Q@Eigen block assertion: leftCols(n) within the matrix@Q@);" % (a, a, cols))
+            cols = "(%s)" % a
+        elif k == "rightCols":
+            checks.append("__CPROVER_assert(0 <= (%s) && (%s) <= %s, @Q@Eigen block assertion: rightCols(n) within the matrix@Q@);" % (a, a, cols))
+            tag = "%s.coltag[%s - (%s) + %s]" % (nm, cols, a, g) if tag else None
+            cols = "(%s)" % a
+        else:
+            raise X.ExtractionBreak("shape rules: asDiagonal() on a matrix: %r" % txt)
+    return Shape(rows, cols, checks, tag)
+
+
+def shape_of(expr, mats, vecs, opname=None, g="g_i"):
+    terms = [t for t in re.split(r"\s[+-]\s", expr.strip())]
+    out = None
+    for t in terms:
+        fs = [_factor(f, mats, vecs, opname, g) for f in X.split_top(t, "*")]
+        cur = fs[0]
+        tags = [fs[-1].tag]
+        for nx in fs[1:]:
+            cur = Shape(cur.rows, nx.cols, cur.checks + nx.checks +
+                        ["__CPROVER_assert(%s == %s, @Q@Eigen: product dimensions agree@Q@);" % (cur.cols, nx.rows)], None, cur.opapply or nx.opapply)
+        # column g of a product is a function of column g of its last factor (and of entry g of a trailing diagonal factor)
+        if len(fs) >= 2 and fs[-1].rows.startswith("VEC_SIZE"):
+            tags.append(fs[-2].tag if len(fs) == 2 else None)
+        cur.tag = tags
+        if out is None:
+            out = cur
+        else:
+            out = Shape(out.rows, out.cols, out.checks + cur.checks +
+                        ["__CPROVER_assert(%s == %s && %s == %s, @Q@Eigen: sum/difference needs equal shapes@Q@);" % (out.rows, cur.rows, out.cols, cur.cols)],
+                        out.tag + cur.tag, out.opapply or cur.opapply)
+    return out
+
+
+def tag_expr(tags):
+    """Provenance of column g of the result: the common tag of everything it was computed from, -1 if they disagree or are unknown."""
+    if not tags or any(t is None for t in tags):
+        return "-1"
+    e = tags[0]
+    cond = " && ".join("%s == %s" % (tags[0], t) for t in tags[1:]) or "1"
+    return "((%s) ? %s : -1)" % (cond, e)
+
+
+SHAPE_DEFS = r"""
+/* fresh matrix standing for the value of an Eigen expression: shape from the expression, provenance of column g_i / g_j from its operands */
+static Mat MAT_RESULT(Index r, Index c, Index tag_i, Index tag_j)
+{ Mat M = MAT_NEW(r, c); if (0 <= g_i && g_i < c) M.coltag[g_i] = tag_i; if (0 <= g_j && g_j < c) M.coltag[g_j] = tag_j; return M; }
+/* M.conservativeResize(Eigen::NoChange, c): the leading min(old, c) columns are kept */
+static void CONS_RESIZE_COLS(Mat *M, Index c)
+{ __CPROVER_assert(0 <= c, "Eigen: conservativeResize to a non-negative column count"); __CPROVER_assume(c <= NMAX);
+  Index *nt = IVEC_NEW(c);
+  if (0 <= g_i && g_i < c && g_i < M->cols) nt[g_i] = M->coltag[g_i];
+  if (0 <= g_j && g_j < c && g_j < M->cols) nt[g_j] = M->coltag[g_j];
+  M->coltag = nt; M->cols = c; }
+/* Y = op * X for a block of k columns: the user's operator is applied (and may throw) */
+static void OP_APPLY_BLOCK(Op *op, Index xrows, Index yrows, Index k)
+{ __CPROVER_assert(xrows == op->n && yrows == op->n, "operator argument: blocks of length-n columns");
+  if (k > 0) { g_ops++; if (nondet_bool()) { verif_exc = EXC_user; return; } } }
+"""
+
+
+def assign_rule(mats, vecs, opname=None):
+    """`lhs[.rightCols(e)][.noalias()] = <expr>;` with a Mat lvalue on the left -> checks + fresh result of the expression's shape."""
+    alt = "|".join(sorted((re.escape(m) for m in mats), key=len, reverse=True))
+    pat = r"(?<![\w.>])((?:\w+->)?(?:%s))((?:\.rightCols\((?:[^()]|\([^()]*\))*\))?)(?:\.noalias\(\))?\s*=\s*([^;=]+);" % alt
+
+    def rep(m):
+        lhs, sel, rhs = m.group(1), m.group(2), " ".join(m.group(3).split())
+        if re.match(r"^MAT_(NEW|RESULT)\(", rhs):
+            return m.group(0)
+        mm = re.match(r"^Matrix\((.*)\)$", rhs)
+        if mm:
+            a = X.split_top(mm.group(1))
+            if len(a) != 2:
+                raise X.ExtractionBreak("shape rules: Matrix(...) with %d arguments" % len(a))
+            return "%s = MAT_NEW(%s, %s);" % (lhs, a[0].strip(), a[1].strip())
+        si, sj = shape_of(rhs, mats, vecs, opname, "g_i"), shape_of(rhs, mats, vecs, opname, "g_j")
+        pre = " ".join(si.checks)
+        if sel:
+            a = sel[len(".rightCols("):-1]
+            pre += (" __CPROVER_assert(0 <= (%s) && (%s) <= %s.cols, @Q@Eigen block assertion: rightCols(n) within the matrix@Q@);" % (a, a, lhs) +
+                    " __CPROVER_assert(%s.rows == %s && (%s) == %s, @Q@Eigen: assignment to a block needs equal shapes@Q@);" % (lhs, si.rows, a, si.cols))
+            if si.opapply:
+                return pre + " OP_APPLY_BLOCK(%s, %s, %s.rows, %s); MAT_TOUCH(%s);" % (opname, si.rows, lhs, a, lhs)
+            return pre + " MAT_TOUCH(%s);" % lhs
+        if si.opapply:
+            raise X.ExtractionBreak("shape rules: operator product assigned to a whole matrix")
+        guard = lambda tg, g: "((0 <= %s && %s < %s) ? %s : -1)" % (g, g, si.cols, tag_expr(tg))
+        return pre + " { Mat verif_r = MAT_RESULT(%s, %s, %s, %s); %s = verif_r; }" % (si.rows, si.cols, guard(si.tag, "g_i"), guard(sj.tag, "g_j"), lhs)
+    return ("mat-assign", pat, rep, {"min": 1})
+
+
+DIM_RULES = [("rows()", r"\.rows\(\)", ".rows", {"min": 0}), ("cols()", r"\.cols\(\)", ".cols", {"min": 0})]
+
+
+def accessor_map(hdr, cls, table, report):
+    """One-line const accessors are inlined after checking their bodies in the header."""
+    out = {}
+    for acc, member in table.items():
+        f = X.locate(hdr, acc, cls=cls)
+        if " ".join(f.body.split()) != "return %s;" % member:
+            raise X.ExtractionBreak("%s::%s() is no longer `return %s;`" % (cls, acc, member))
+        out[acc] = member
+    report["%s accessors" % cls] = out
+    return out
+
+
+# --------------------------------------------------------------------------- SearchSpace
+
+SS_SHAPE = ("0 <= self->m_basis_vectors.rows && self->m_basis_vectors.rows <= NMAX && 0 <= self->m_basis_vectors.cols && self->m_basis_vectors.cols <= NMAX && "
+            "0 <= self->m_op_basis_product.rows && self->m_op_basis_product.rows <= NMAX && 0 <= self->m_op_basis_product.cols && self->m_op_basis_product.cols <= NMAX")
+ALLOC_SS = r"""
+  SS Sv; SS *self = &Sv; self->m_basis_vectors = MAT_NEW(ND_SIZE(), ND_SIZE()); self->m_op_basis_product = MAT_NEW(ND_SIZE(), ND_SIZE());
+  g_i = nondet_Index(); g_j = nondet_Index(); g_ops = nondet_Index(); __CPROVER_assume(0 <= g_ops && g_ops <= 1000000000);
+"""
+ALLOC_RPC = ALLOC_RP.replace("RP Rv; RP *self = &Rv;", "RP Rv; RP *ritz_pairs = &Rv;").replace("self->", "ritz_pairs->")
+
+
+def ss_specs():
+    S = {}
+    S["initialize_search_space"] = FSpec(
+        "ss_initialize_search_space", "void", [("SS *", "self"), ("Mat", "initial_vectors")],
+        pre=[("initial space is a matrix", "0 <= initial_vectors.rows && initial_vectors.rows <= NMAX && 0 <= initial_vectors.cols && initial_vectors.cols <= NMAX")],
+        post=[("the basis is the caller's initial space", "self->m_basis_vectors.rows == initial_vectors.rows && self->m_basis_vectors.cols == initial_vectors.cols"),
+              ("no cached operator product is kept from an earlier run", "self->m_op_basis_product.rows == initial_vectors.rows && self->m_op_basis_product.cols == 0")],
+        frame=["self->m_basis_vectors", "self->m_op_basis_product"], real=SSH + ":initialize_search_space")
+    S["update_operator_basis_product"] = FSpec(
+        "ss_update_operator_basis_product", "void", [("SS *", "self"), ("Op *", "op")],
+        pre=[("shapes", SS_SHAPE), ("cached products cover a prefix of the basis", "self->m_op_basis_product.cols <= self->m_basis_vectors.cols"),
+             ("basis and cached products have operator-sized columns", "self->m_basis_vectors.rows == op->n && self->m_op_basis_product.rows == op->n")],
+        post=[("one cached product column per basis column", "self->m_op_basis_product.cols == self->m_basis_vectors.cols && self->m_op_basis_product.rows == old_rows"),
+              ("basis untouched", "self->m_basis_vectors.cols == old_bc && self->m_basis_vectors.rows == old_rows"),
+              ("the operator is applied exactly when there are new basis vectors", "g_ops == old_ops + (old_bc > old_pc ? 1 : 0)")],
+        exc_post=[("only the user's operator throws", "verif_exc == EXC_user")],
+        frame=["self->m_op_basis_product", "g_ops"], may_throw=[7],
+        olds=[("Index", "old_rows", "self->m_basis_vectors.rows"), ("Index", "old_bc", "self->m_basis_vectors.cols"), ("Index", "old_pc", "self->m_op_basis_product.cols"), ("Index", "old_ops", "g_ops")],
+        real=SSH + ":update_operator_basis_product")
+    S["restart"] = FSpec(
+        "ss_restart", "void", [("SS *", "self"), ("const RP *", "ritz_pairs"), ("Index", "size")],
+        pre=[("shapes", SS_SHAPE), ("restart size within the Ritz pairs", "0 <= size && size <= ritz_pairs->m_vectors.cols && size <= ritz_pairs->m_small_vectors.cols"),
+             ("the small eigenvectors were computed for the current cached products", "self->m_op_basis_product.cols == ritz_pairs->m_small_vectors.rows"),
+             ("Ritz vectors have operator-sized columns", "ritz_pairs->m_vectors.rows == self->m_op_basis_product.rows")],
+        post=[("basis := the leading `size` Ritz vectors", "self->m_basis_vectors.rows == old_rows && self->m_basis_vectors.cols == size"),
+              ("cached products follow the basis (same number of columns)", "self->m_op_basis_product.rows == old_rows && self->m_op_basis_product.cols == size"),
+              ("column g of the new basis is Ritz vector g", "!(0 <= g_i && g_i < size) || self->m_basis_vectors.coltag[g_i] == ritz_pairs->m_vectors.coltag[g_i]"),
+              ("column g of the new cached products is combined with small eigenvector g (the same pair)", "!(0 <= g_i && g_i < size) || self->m_op_basis_product.coltag[g_i] == ritz_pairs->m_small_vectors.coltag[g_i]")],
+        frame=["self->m_basis_vectors", "self->m_op_basis_product"],
+        olds=[("Index", "old_rows", "self->m_op_basis_product.rows")], real=SSH + ":restart")
+    S["extend_basis"] = FSpec(
+        "ss_extend_basis", "void", [("SS *", "self"), ("Mat", "new_vect")],
+        pre=[("shapes", SS_SHAPE), ("new directions have basis-sized columns", "new_vect.rows == self->m_basis_vectors.rows && 0 <= new_vect.cols && new_vect.cols <= NMAX"),
+             ("at least one new direction (precondition asserted by the orthogonalisation routine)", "new_vect.cols >= 1")],
+        post=[("basis grows by the number of new directions", "self->m_basis_vectors.cols == old_bc + new_vect.cols && self->m_basis_vectors.rows == old_rows"),
+              ("cached products untouched", "self->m_op_basis_product.cols == old_pc")],
+        frame=["self->m_basis_vectors"],
+        olds=[("Index", "old_rows", "self->m_basis_vectors.rows"), ("Index", "old_bc", "self->m_basis_vectors.cols"), ("Index", "old_pc", "self->m_op_basis_product.cols")],
+        real=SSH + ":extend_basis")
+    return S
+
+
+ORTHO_STUB = r"""
+/* twice_is_enough_orthogonalisation (LinAlg/Orthogonalization.h): shape-preserving; its own asserted precondition is checked here */
+static void twice_is_enough_orthogonalisation(Mat *in_output, Index left_cols_to_skip)
+{ __CPROVER_assert(in_output->cols > left_cols_to_skip && left_cols_to_skip >= 0, "precondition asserted by the orthogonalisation: 0 <= left_cols_to_skip < cols");
+  MAT_TOUCH(*in_output); }
+"""
+
+
+def f_search_space(report):
+    mats = ["m_basis_vectors", "m_op_basis_product", "initial_vectors", "new_vect", "m_vectors", "m_small_vectors", "m_residues"]
+    rp_acc = accessor_map(RPH, "RitzPairs", {"ritz_vectors": "m_vectors", "ritz_values": "m_values", "small_ritz_vectors": "m_small_vectors",
+                                              "residues": "m_residues", "converged_eigenvalues": "m_root_converged"}, report)
+    specs = ss_specs()
+    for v_ in specs.values():
+        capify(v_)
+    out = {}
+    acc_rule = ("rp-accessor", r"\britz_pairs\.(\w+)\(\)", lambda m: "ritz_pairs->" + rp_acc[m.group(1)] if m.group(1) in rp_acc else m.group(0), {"min": 0})
+    size_rule = ("size()", r"(?<![\w.>])size\(\)", "self->m_basis_vectors.cols", {"min": 0})
+    sz = X.locate(SSH, "size", cls="SearchSpace")
+    if " ".join(sz.body.split()) != "return m_basis_vectors.cols();":
+        raise X.ExtractionBreak("SearchSpace::size() is no longer the number of basis columns")
+    common_rules = [acc_rule] + DIM_RULES + [size_rule]
+    resize = ("cons-resize", r"(self->\w+)\.conservativeResize\(Eigen::NoChange, ([^;]+)\);", r"CONS_RESIZE_COLS(&\1, \2);", {"max": 1})
+    # initialize_search_space
+    f = X.locate(SSH, "initialize_search_space", cls="SearchSpace")
+    t, R = cgen.emit(f, "ss_initialize_search_space", ret_c="void", self_type="SS", members=SS_MEMBERS, param_types={"initial_vectors": "Mat"},
+                     extra_rules=common_rules + [assign_rule(mats, {})], contract=specs["initialize_search_space"].frame_contract())
+    report["SearchSpace::initialize_search_space"] = R.fired
+    out["initialize_search_space"] = t
+    # update_operator_basis_product
+    f = X.locate(SSH, "update_operator_basis_product", cls="SearchSpace")
+    t, R = cgen.emit(f, "ss_update_operator_basis_product", ret_c="void", self_type="SS", members=SS_MEMBERS, param_types={"op": "Op *"},
+                     extra_rules=common_rules + [resize, assign_rule(mats, {}, "op")],
+                     contract=specs["update_operator_basis_product"].frame_contract(), maythrow=["OP_APPLY_BLOCK"])
+    report["SearchSpace::update_operator_basis_product"] = R.fired
+    out["update_operator_basis_product"] = t
+    # restart
+    f = X.locate(SSH, "restart", cls="SearchSpace")
+    t, R = cgen.emit(f, "ss_restart", ret_c="void", self_type="SS", members=SS_MEMBERS, param_types={"ritz_pairs": "const RP *"},
+                     extra_rules=common_rules + [assign_rule(mats, {})], contract=specs["restart"].frame_contract())
+    report["SearchSpace::restart"] = R.fired
+    out["restart"] = t
+    # extend_basis (+ private helper append_new_vectors_to_basis, kept as a real callee)
+    fa = X.locate(SSH, "append_new_vectors_to_basis", cls="SearchSpace")
+    ta, R = cgen.emit(fa, "ss_append_new_vectors_to_basis", ret_c="void", self_type="SS", members=SS_MEMBERS, param_types={"new_vect": "Mat"}, static=True,
+                      extra_rules=common_rules + [resize, assign_rule(mats, {})])
+    report["SearchSpace::append_new_vectors_to_basis"] = R.fired
+    f = X.locate(SSH, "extend_basis", cls="SearchSpace")
+    t, R = cgen.emit(f, "ss_extend_basis", ret_c="void", self_type="SS", members=SS_MEMBERS, param_types={"new_vect": "Mat"},
+                     extra_rules=common_rules + [("append", r"(?<![\w>])append_new_vectors_to_basis\(new_vect\);", "ss_append_new_vectors_to_basis(self, new_vect);", {"max": 1}),
+                                                 ("ortho", r"twice_is_enough_orthogonalisation\(self->m_basis_vectors, (\w+)\);", r"twice_is_enough_orthogonalisation(&self->m_basis_vectors, \1);", {"max": 1})],
+                     contract=specs["extend_basis"].frame_contract())
+    report["SearchSpace::extend_basis"] = R.fired
+    out["extend_basis"] = ORTHO_STUB + ta + t
+    return out, specs
+
+
+# --------------------------------------------------------------------------- RitzPairs::compute_eigen_pairs
+
+def decl_rule(mats, vecs):
+    """`Matrix name = <expr>;` / `Matrix name = Matrix::Zero(r, c);` -> fresh result of the expression's shape (name joins `mats`)."""
+    def rep(m):
+        nm, rhs = m.group(1), " ".join(m.group(2).split())
+        mats.append(nm)
+        mz = re.match(r"^Matrix::Zero\((.*)\)$", rhs)
+        if mz:
+            a = X.split_top(mz.group(1))
+            if len(a) != 2:
+                raise X.ExtractionBreak("shape rules: Matrix::Zero with %d arguments" % len(a))
+            return "Mat %s = MAT_NEW(%s, %s);" % (nm, a[0].strip(), a[1].strip())
+        si, sj = shape_of(rhs, mats, vecs, None, "g_i"), shape_of(rhs, mats, vecs, None, "g_j")
+        guard = lambda tg, g: "((0 <= %s && %s < %s) ? %s : -1)" % (g, g, si.cols, tag_expr(tg))
+        return " ".join(si.checks) + " Mat %s = MAT_RESULT(%s, %s, %s, %s);" % (nm, si.rows, si.cols, guard(si.tag, "g_i"), guard(sj.tag, "g_j"))
+    return ("mat-decl", r"(?<![\w&])Matrix (\w+) = ([^;]+);", rep, {"min": 0})
+
+
+CEP_DEFS = r"""
+/* Eigen::SelfAdjointEigenSolver<Matrix>(M): assumed contract - needs a square matrix; n eigenvalues, n x n eigenvectors, column j belongs to value j;
+ * info() is Success, NumericalIssue or NoConvergence */
+static int ES_INFO(void) { int r = nondet_int(); __CPROVER_assume(0 <= r && r <= 2); return r; }
+static Scalar *ES_VALUES(RP *self, Index n)
+{ Scalar *p = VEC_NEW(n); self->tag_val = IVEC_NEW(n);
+  if (0 <= g_i && g_i < n) self->tag_val[g_i] = g_i;
+  if (0 <= g_j && g_j < n) self->tag_val[g_j] = g_j;
+  return p; }
+"""
+
+
+def cep_spec():
+    return FSpec("rp_compute_eigen_pairs", "int", [("RP *", "self"), ("const SS *", "search_space")],
+                 pre=[("one cached operator product per basis vector, columns of equal length",
+                       "search_space->m_basis_vectors.rows == search_space->m_op_basis_product.rows && search_space->m_basis_vectors.cols == search_space->m_op_basis_product.cols && "
+                       "0 <= search_space->m_basis_vectors.rows && search_space->m_basis_vectors.rows <= NMAX && 0 <= search_space->m_basis_vectors.cols && search_space->m_basis_vectors.cols <= NMAX"),
+                      ("clock", "0 <= g_clock && g_clock <= 2000000000")],
+                 post=[("one value, Ritz vector, residual and small eigenvector per basis vector (class invariant of RitzPairs)",
+                        RP_SHAPES + " && VEC_SIZE(self->m_values) == search_space->m_basis_vectors.cols && self->m_vectors.rows == search_space->m_basis_vectors.rows"),
+                       ("value j, Ritz vector j, residual j and small eigenvector j belong to the same pair",
+                        "!(0 <= g_i && g_i < VEC_SIZE(self->m_values)) || (self->tag_val[g_i] == g_i && self->m_vectors.coltag[g_i] == g_i && self->m_residues.coltag[g_i] == g_i && self->m_small_vectors.coltag[g_i] == g_i)"),
+                       ("the pairs are new: flags computed earlier no longer describe them", "self->st_pairs == g_clock && g_clock == old_clock + 1"),
+                       ("status of the small eigenproblem is returned", "0 <= ret && ret <= 2")],
+                 frame=["self->m_values", "self->tag_val", "self->m_small_vectors", "self->m_vectors", "self->m_residues", "self->st_pairs", "g_clock"],
+                 olds=[("Index", "old_clock", "g_clock")], real=RPH + ":compute_eigen_pairs")
+
+
+def f_compute_eigen_pairs(report):
+    f = X.locate(RPH, "RitzPairs<Scalar>::compute_eigen_pairs")
+    ss_acc = accessor_map(SSH, "SearchSpace", {"basis_vectors": "m_basis_vectors", "operator_basis_product": "m_op_basis_product"}, report)
+    mats = ["m_small_vectors", "m_vectors", "m_residues"]
+    vecs = {"m_values": "self->tag_val"}
+    spec = capify(cep_spec())
+
+    def ref_rule(m):
+        mats.append(m.group(1))
+        return "const Mat %s = %s;" % (m.group(1), m.group(2))
+    t, R = cgen.emit(f, "rp_compute_eigen_pairs", ret_c="int", self_type="RP", members=RP_MEMBERS, param_types={"search_space": "const SS *"},
+                     extra_rules=[("ss-accessor", r"\bsearch_space\.(\w+)\(\)", lambda m: "search_space->" + ss_acc[m.group(1)] if m.group(1) in ss_acc else m.group(0), {"min": 2}),
+                                  ("ref-decl", r"const Matrix& (\w+) = ([^;]+);", ref_rule, {"min": 0}),
+                                  decl_rule(mats, vecs),
+                                  ("eigensolver", r"Eigen::SelfAdjointEigenSolver<Matrix> (\w+)\((\w+)\);",
+                                   r"__CPROVER_assert(\2.rows == \2.cols, @Q@Eigen: SelfAdjointEigenSolver needs a square matrix@Q@); const Index \1_n = \2.rows; const int \1_info = ES_INFO(); g_clock++;", {"max": 1}),
+                                  ("es-values", r"self->m_values = (\w+)\.eigenvalues\(\);", r"self->m_values = ES_VALUES(self, \1_n); self->st_pairs = g_clock;", {"max": 1}),
+                                  ("es-vectors", r"self->m_small_vectors = (\w+)\.eigenvectors\(\);", r"self->m_small_vectors = MAT_RESULT(\1_n, \1_n, g_i, g_j);", {"max": 1}),
+                                  assign_rule(mats, vecs),
+                                  ("es-info", r"return (\w+)\.info\(\);", r"return \1_info;", {"max": 1})],
+                     contract=spec.frame_contract())
+    report["RitzPairs::compute_eigen_pairs"] = R.fired
+    return CEP_DEFS + t, spec
+
+
+# --------------------------------------------------------------------------- DavidsonSymEigsSolver
+
+JD_INV = ("1 <= self->op_n && self->op_n <= NMAX && 1 <= self->m_number_eigenvalues && self->m_number_eigenvalues <= self->op_n - 1 && "
+          "0 <= self->m_initial_search_space_size && self->m_initial_search_space_size <= NMAX && 0 <= self->m_correction_size && self->m_correction_size <= NMAX && "
+          "self->m_number_eigenvalues <= self->m_initial_search_space_size && 1 <= self->m_correction_size && self->m_correction_size <= self->m_initial_search_space_size && "
+          "self->m_initial_search_space_size + self->m_correction_size <= self->op_n && self->m_initial_search_space_size <= self->m_max_search_space_size && "
+          "self->m_max_search_space_size <= self->op_n")
+JD_INV_DOC = ("class invariant established by the constructor (setters are the caller's responsibility): 1 <= nev <= n - 1, nev <= initial size, "
+              "1 <= correction size <= initial size, initial + correction <= n, initial size <= maximal size <= n")
+
+ALLOC_JD = r"""
+  JDS Jv; JDS *self = &Jv; Op opv; Op *op = &opv;
+  self->op_n = nondet_Index(); op->n = self->op_n; self->op = op;
+  self->niter_ = nondet_Index(); self->m_number_eigenvalues = nondet_Index(); self->m_max_search_space_size = nondet_Index();
+  self->m_initial_search_space_size = nondet_Index(); self->m_correction_size = nondet_Index(); self->m_info = nondet_int();
+  self->m_diagonal = VEC_NEW(ND_SIZE());
+  { RP *rp = &self->m_ritz_pairs;
+    rp->m_values = VEC_NEW(ND_SIZE()); rp->tag_val = IVEC_NEW(VEC_SIZE(rp->m_values));
+    rp->m_small_vectors = MAT_NEW(ND_SIZE(), ND_SIZE()); rp->m_vectors = MAT_NEW(ND_SIZE(), ND_SIZE()); rp->m_residues = MAT_NEW(ND_SIZE(), ND_SIZE());
+    rp->m_root_converged = BVEC_NEW(ND_SIZE()); rp->g_norms = VEC_NEW(ND_SIZE()); rp->st_pairs = nondet_Index(); rp->st_conv = nondet_Index();
+    rp->g_cc_ret = nondet_bool(); rp->g_cc_nev = nondet_Index(); rp->g_sorted_sel = nondet_int(); }
+  self->m_search_space.m_basis_vectors = MAT_NEW(ND_SIZE(), ND_SIZE()); self->m_search_space.m_op_basis_product = MAT_NEW(ND_SIZE(), ND_SIZE());
+  g_i = nondet_Index(); g_j = nondet_Index(); g_p = nondet_Index(); g_w = -1;
+  g_ops = nondet_Index(); g_clock = nondet_Index(); __CPROVER_assume(0 <= g_ops && g_ops <= 1000000000 && 0 <= g_clock && g_clock <= 1000000000);
+"""
+
+THIS_RULE = ("this->", r"\bthis->", "", {"min": 0})
+OPDIM_RULES = [("op.rows()", r"self->m_matrix_operator\.(rows|cols)\(\)", "self->op_n", {"min": 0}), ("op.rows()2", r"\bop\.(rows|cols)\(\)", "op->n", {"min": 0})]
+
+
+def ccv_spec():
+    return FSpec("calculate_correction_vector", "Mat", [("const JDS *", "self")],
+                 pre=[("operator dimension", "1 <= self->op_n && self->op_n <= NMAX"),
+                      ("one correction per leading Ritz pair: 0 <= correction size <= number of Ritz pairs",
+                       "0 <= self->m_correction_size && self->m_correction_size <= VEC_SIZE(self->m_ritz_pairs.m_values) && self->m_correction_size <= self->m_ritz_pairs.m_residues.cols"),
+                      ("residuals and the stored diagonal have operator-sized columns", "self->m_ritz_pairs.m_residues.rows == self->op_n && VEC_SIZE(self->m_diagonal) == self->op_n"),
+                      ("DPR denominator: no Ritz value used for a correction equals a diagonal entry exactly (theta_k - a_ii != 0)",
+                       "!(0 <= g_j && g_j < self->m_correction_size && 0 <= g_i && g_i < self->op_n) || self->m_ritz_pairs.m_values[g_j] != self->m_diagonal[g_i]")],
+                 post=[("one n-vector per correction", "ret.rows == self->op_n && ret.cols == self->m_correction_size")],
+                 frame=[], real=DV + ":calculate_correction_vector")
+
+
+CCV_DEFS = r"""
+/* correction.col(k) = residues.col(k).array() / (theta_k - diagonal).array(): sizes must agree, and the quotient is finite only for a non-zero denominator */
+#define DPR_QUOTIENT(corr, k, res, theta, diag) do { COL_CHECK(corr, k); COL_CHECK(res, k); \
+    __CPROVER_assert((res).rows == VEC_SIZE(diag) && (corr).rows == (res).rows, "Eigen: coefficient-wise quotient needs equal sizes"); \
+    __CPROVER_assert(!((k) == g_j && 0 <= g_i && g_i < VEC_SIZE(diag)) || ((theta) - (diag)[g_i]) != (Scalar)0, "DPR correction: the denominator theta_k - a_ii is not zero"); \
+    (corr).cell = nondet_Scalar(); } while (0)
+"""
+
+
+def f_calc_correction(report):
+    f = X.locate(DV, "calculate_correction_vector", cls="DavidsonSymEigsSolver")
+    ml = re.search(r"for \(Index (\w+) = 0; \1 < this->m_correction_size; (?:\1\+\+|\+\+\1)\)", f.body)
+    if not ml:
+        raise X.ExtractionBreak("calculate_correction_vector: loop over the corrections not recognised")
+    K = ml.group(1)
+    spec = capify(ccv_spec())
+    mats = []
+    inv = ("__CPROVER_assigns(%(K)s, correction.cell) __CPROVER_loop_invariant(0 <= %(K)s && %(K)s <= self->m_correction_size) "
+           "__CPROVER_decreases(self->m_correction_size - %(K)s)") % {"K": K}
+    t, R = cgen.emit(f, "calculate_correction_vector", ret_c="Mat", self_type="const JDS", members=JD_MEMBERS + ["m_diagonal"],
+                     pre_rules=[THIS_RULE],
+                     extra_rules=OPDIM_RULES + [
+                         ("residues", r"const Matrix& (\w+) = self->m_ritz_pairs\.residues\(\);", r"const Mat \1 = self->m_ritz_pairs.m_residues;", {"max": 1}),
+                         ("eigvals", r"const Vector& (\w+) = self->m_ritz_pairs\.ritz_values\(\);", r"const Scalar *\1 = self->m_ritz_pairs.m_values;", {"max": 1}),
+                         decl_rule(mats, {}),
+                         ("theta", r"Vector (\w+) = (\w+)\((\w+)\) - self->m_diagonal\.array\(\);", r"const Scalar \1_theta = \2[\3];", {"max": 1}),
+                         ("quotient", r"(\w+)\.col\((\w+)\) = (\w+)\.col\((\w+)\)\.array\(\) / (\w+)\.array\(\);",
+                          lambda m: ("DPR_QUOTIENT(%s, %s, %s, %s_theta, self->m_diagonal);" % (m.group(1), m.group(2), m.group(3), m.group(5))) if m.group(2) == m.group(4)
+                          else "COL_CHECK(%s, %s); COL_CHECK(%s, %s); __CPROVER_assert(0, @Q@correction k is computed from residual k@Q@);" % (m.group(1), m.group(2), m.group(3), m.group(4)), {"max": 1})],
+                     loop_contracts={0: inv}, contract=spec.frame_contract())
+    t = t.replace("const JDS *self", "const JDS *self", 1)
+    report["DavidsonSymEigsSolver::calculate_correction_vector"] = R.fired
+    return CCV_DEFS + t, spec
+
+
+def sis_spec():
+    return FSpec("setup_initial_search_space", "Mat", [("const JDS *", "self"), ("SortRule", "selection")],
+                 pre=[("the initial search space fits the matrix: 0 <= initial size <= n", "1 <= self->op_n && self->op_n <= NMAX && 0 <= self->m_initial_search_space_size && self->m_initial_search_space_size <= self->op_n"),
+                      ("stored diagonal has n entries", "VEC_SIZE(self->m_diagonal) == self->op_n")],
+                 post=[("accepted <=> the rule is defined for real values", "(" + " || ".join("selection == SortRule_%s" % r for r in SORT_RULES_REAL) + ")"),
+                       ("n x (initial size) basis", "ret.rows == self->op_n && ret.cols == self->m_initial_search_space_size"),
+                       ("column k is the unit vector of the k-th diagonal entry in selection order; distinct columns pick distinct coordinates",
+                        "!(0 <= g_i && g_i < g_j && g_j < self->m_initial_search_space_size) || (ret.coltag[g_i] == g_ia && ret.coltag[g_j] == g_ib && g_ia != g_ib)")],
+                 exc_post=[("rejected <=> rule not defined for real values", "verif_exc == EXC_invalid_argument && !(" + " || ".join("selection == SortRule_%s" % r for r in SORT_RULES_REAL) + ")")],
+                 frame=["g_ia", "g_ib", "g_va", "g_vb"], may_throw=[1], real=DV + ":setup_initial_search_space")
+
+
+def f_setup_initial(report):
+    f = X.locate(DV, "setup_initial_search_space", cls="DavidsonSymEigsSolver")
+    ml = re.search(r"for \(Index (\w+) = 0; \1 < this->m_initial_search_space_size; (?:\1\+\+|\+\+\1)\)", f.body)
+    if not ml:
+        raise X.ExtractionBreak("setup_initial_search_space: loop over the initial basis not recognised")
+    K = ml.group(1)
+    spec = capify(sis_spec())
+    mats = []
+    inv = ("__CPROVER_assigns(%(K)s, initial_basis.cell, __CPROVER_object_whole(initial_basis.coltag)) "
+           "__CPROVER_loop_invariant(0 <= %(K)s && %(K)s <= self->m_initial_search_space_size) "
+           "__CPROVER_loop_invariant(!(0 <= g_i && g_i < %(K)s) || initial_basis.coltag[g_i] == g_ia) "
+           "__CPROVER_loop_invariant(!(0 <= g_j && g_j < %(K)s) || initial_basis.coltag[g_j] == g_ib) "
+           "__CPROVER_decreases(self->m_initial_search_space_size - %(K)s)") % {"K": K}
+    t, R = cgen.emit(f, "setup_initial_search_space", ret_c="Mat", self_type="const JDS", members=JD_MEMBERS + ["m_diagonal"],
+                     pre_rules=[THIS_RULE],
+                     extra_rules=OPDIM_RULES + [
+                         ("argsort", r"std::vector<Eigen::Index> (\w+) = argsort\(selection, self->m_diagonal\);", r"IndexArray \1 = argsort(selection, self->m_diagonal, VEC_SIZE(self->m_diagonal));", {"max": 1}),
+                         decl_rule(mats, {}),
+                         ("row", r"Index (\w+) = (\w+)\[(\w+)\];",
+                          r"__CPROVER_assert(0 <= \3 && \3 < \2.size, @Q@std::vector index within argsort's result@Q@); INSTANTIATE_RANGE(\2, \3, VEC_SIZE(self->m_diagonal)); Index \1 = \2.data[\3];", {"max": 1}),
+                         ("unit", r"(\w+)\((\w+), (\w+)\) = 1\.0;", r"*MAT_ELEM(&\1, \2, \3) = (Scalar)1.0; \1.coltag[\3] = \2;", {"max": 1})],
+                     loop_contracts={0: inv}, contract=spec.frame_contract(), maythrow=["argsort"])
+    report["DavidsonSymEigsSolver::setup_initial_search_space"] = R.fired
+    return t, spec
+
+
+# --------------------------------------------------------------------------- JDSymEigsBase::compute_with_guess / compute / constructor / accessors
+
+SUCC = "self->m_info == CompInfo_Successful"
+_RPM = ["m_small_vectors", "m_vectors", "m_residues"]
+_SSM = ["m_basis_vectors", "m_op_basis_product"]
+CAP_MATS = _RPM + _SSM
+# capacity mode: what compute_with_guess (and its loop) may assign - scalars, Mat dimensions, and the pre-allocated capacity arrays (in place)
+CWG_SCALARS = ["self->m_ritz_pairs.%s" % f for f in ("n_values", "n_flags", "n_norms", "st_pairs", "st_conv", "g_cc_ret", "g_cc_nev", "g_sorted_sel")] + \
+    ["self->m_ritz_pairs.%s.%s" % (m, f) for m in _RPM for f in ("rows", "cols", "cell")] + ["self->m_search_space.%s.%s" % (m, f) for m in _SSM for f in ("rows", "cols", "cell")]
+CWG_OBJS = ["self->m_ritz_pairs.%s" % f for f in ("m_values", "tag_val", "m_root_converged", "g_norms")] + \
+    ["self->m_ritz_pairs.%s.coltag" % m for m in _RPM] + ["self->m_search_space.%s.coltag" % m for m in _SSM]
+
+CAP_GLOBALS = ("Index g_ia, g_ib; Scalar g_va, g_vb; Index g_cap; static Index CAP_SIZE(void) { Index n = nondet_Index(); __CPROVER_assume(0 <= n && n <= g_cap); return n; } "
+               "Index *g_corr_coltag;   /* capacity mode: column tags of a matrix returned by value */\n")
+ALLOC_JD_CAP = r"""
+  JDS Jv; JDS *self = &Jv; Op opv; Op *op = &opv;
+  self->op_n = nondet_Index(); op->n = self->op_n; self->op = op;
+  self->niter_ = nondet_Index(); self->m_number_eigenvalues = nondet_Index(); self->m_max_search_space_size = nondet_Index();
+  self->m_initial_search_space_size = nondet_Index(); self->m_correction_size = nondet_Index(); self->m_info = nondet_int();
+  self->m_diagonal = VEC_NEW(ND_SIZE());
+  g_cap = ND_SIZE();   /* capacity of every pre-allocated array: arbitrary, so every run whose sizes stay below the machine-integer cap NMAX is covered */
+  { RP *rp = &self->m_ritz_pairs;      /* capacity mode: every array has capacity NMAX, the Eigen size is the ghost field */
+    rp->m_values = VEC_NEW(g_cap); rp->tag_val = IVEC_NEW(g_cap); rp->m_root_converged = BVEC_NEW(g_cap); rp->g_norms = VEC_NEW(g_cap);
+    rp->n_values = CAP_SIZE(); rp->n_flags = CAP_SIZE(); rp->n_norms = CAP_SIZE();
+    rp->m_small_vectors = MAT_NEW(g_cap, g_cap); rp->m_vectors = MAT_NEW(g_cap, g_cap); rp->m_residues = MAT_NEW(g_cap, g_cap);
+    rp->m_small_vectors.rows = CAP_SIZE(); rp->m_small_vectors.cols = CAP_SIZE(); rp->m_vectors.rows = CAP_SIZE(); rp->m_vectors.cols = CAP_SIZE();
+    rp->m_residues.rows = CAP_SIZE(); rp->m_residues.cols = CAP_SIZE();
+    rp->st_pairs = nondet_Index(); rp->st_conv = nondet_Index(); rp->g_cc_ret = nondet_bool(); rp->g_cc_nev = nondet_Index(); rp->g_sorted_sel = nondet_int(); }
+  self->m_search_space.m_basis_vectors = MAT_NEW(g_cap, g_cap); self->m_search_space.m_op_basis_product = MAT_NEW(g_cap, g_cap);
+  self->m_search_space.m_basis_vectors.rows = CAP_SIZE(); self->m_search_space.m_basis_vectors.cols = CAP_SIZE();
+  self->m_search_space.m_op_basis_product.rows = CAP_SIZE(); self->m_search_space.m_op_basis_product.cols = CAP_SIZE();
+  g_corr_coltag = IVEC_NEW(g_cap);
+  __CPROVER_assume(self->op_n <= g_cap);   /* every size that occurs is at most the capacity (the instance g_cap = NMAX covers every run below the integer cap) */
+  g_i = nondet_Index(); g_j = nondet_Index(); g_p = nondet_Index(); g_w = -1;
+  g_ops = nondet_Index(); g_clock = nondet_Index(); __CPROVER_assume(0 <= g_ops && g_ops <= 1000000000 && 0 <= g_clock && g_clock <= 1000000000);
+"""
+
+
+def cwg_spec(sized=True):
+    nev = "self->m_number_eigenvalues"
+    rp = "self->m_ritz_pairs"
+    pre = [(JD_INV_DOC, JD_INV),
+           ("the initial space has n rows, at least as many columns as the restart size (which is at least nev and the correction size) and at most the maximal size",
+            "initial_space.rows == self->op_n && self->m_initial_search_space_size <= initial_space.cols && initial_space.cols <= self->m_max_search_space_size"),
+           ("at least one iteration is allowed", "1 <= maxit && maxit <= 100000"),
+           ("stored diagonal has n entries", "VEC_SIZE(self->m_diagonal) == self->op_n"), ("operator", "self->op->n == self->op_n"),
+           ("clock", "0 <= g_clock && g_clock <= 1000000000 && 0 <= g_ops && g_ops <= 1000000000")]
+    post = [("status after compute is Successful, NotConverging or NumericalIssue", "%s || self->m_info == CompInfo_NotConverging || self->m_info == CompInfo_NumericalIssue" % SUCC),
+            ("Successful => compute() returns nev", "!(%s) || ret == %s" % (SUCC, nev)),
+            ("the return value counts flagged pairs among the first nev", "0 <= ret && ret <= %s" % nev),
+            ("Successful => the flags describe the returned pairs (not an earlier set)", "!(%s) || %s.st_conv == %s.st_pairs" % (SUCC, rp, rp)),
+            ("Successful => each of the nev returned pairs is flagged and has a (cached) residual norm < tol",
+             "!(%s && 0 <= g_i && g_i < %s) || (%s.m_root_converged[g_i] && %s.g_norms[g_i] < tol)" % (SUCC, nev, rp, rp)),
+            ("unless the small eigenproblem failed, the returned pairs are ordered by the selection rule", "self->m_info == CompInfo_NumericalIssue || %s.g_sorted_sel == selection" % rp),
+            ("NotConverging only when the iteration limit is reached", "self->m_info != CompInfo_NotConverging || self->niter_ == maxit - 1"),
+            ("number of iterations within the limit", "0 <= self->niter_ && self->niter_ <= maxit - 1"),
+            ("at least nev Ritz pairs exist, so eigenvalues() / eigenvectors() are index-safe",
+             "VEC_SIZE(%s.m_values) >= %s && %s.m_vectors.cols >= %s && %s.m_vectors.rows == self->op_n && VEC_SIZE(%s.m_root_converged) >= %s" % (rp, nev, rp, nev, rp, rp, nev)),
+            ("class invariant preserved", JD_INV)]
+    return FSpec("compute_with_guess", "Index", [("JDS *", "self"), ("Mat", "initial_space"), ("SortRule", "selection"), ("Index", "maxit"), ("Scalar", "tol")],
+                 pre=pre, post=post,
+                 exc_post=[("only the user's operator or an unsupported selection rule throw", "verif_exc == EXC_user || verif_exc == EXC_invalid_argument"), ("class invariant preserved", JD_INV)],
+                 frame=["self->niter_", "self->m_info", "g_ops", "g_clock", "g_ia", "g_ib", "g_va", "g_vb", "g_w"] + CWG_SCALARS, frame_objs=CWG_OBJS,
+                 may_throw=[1, 7], real=JD + ":compute_with_guess")
+
+
+CWG_DEFS = r"""
+/* converged_eigenvalues().cast<Index>().head(n).sum(): number of set flags among the first n (definitional facts of a count, instantiated at the Skolem index, and
+ * the counting lemma `all of the first n flags set <=> count == n`, which check_convergence's contract states for n = nev) */
+/* ASSUMPTION (listed in the evidence): the small eigenproblem of the FIRST iteration of a call works on the caller's finite initial space and the finite operator, so
+ * Eigen's solver succeeds there; failures are modelled from the second iteration on (non-finite values can only come out of a correction step) */
+#define FIRST_SMALL_PROBLEM_SUCCEEDS(it, info) do { if ((it) == 0) __CPROVER_assume((info) == 0); } while (0)
+static Index HEAD_COUNT(const RP *rp, Index n)
+{ __CPROVER_assert(0 <= n && n <= NFLAGS(rp), "Eigen block assertion: head(n) within the flag array");
+  Index c = nondet_Index(); __CPROVER_assume(0 <= c && c <= n);
+  if (0 <= g_i && g_i < n) __CPROVER_assume((c < n || rp->m_root_converged[g_i]) && (c > 0 || !rp->m_root_converged[g_i]));
+  if (rp->g_cc_nev == n && rp->st_conv == rp->st_pairs && n <= rp->m_residues.cols) __CPROVER_assume((c == n) == (rp->g_cc_ret != 0));
+  return c; }
+"""
+
+
+def f_compute_with_guess(report, specs):
+    f = X.locate(JD, "compute_with_guess", cls="JDSymEigsBase")
+    spec = capify(cwg_spec())
+    rp = "self->m_ritz_pairs"
+    ssp = "self->m_search_space"
+    SHAPE_INV = ("%(ss)s.m_basis_vectors.rows == self->op_n && %(ss)s.m_op_basis_product.rows == self->op_n && 0 <= %(ss)s.m_op_basis_product.cols && "
+                 "%(ss)s.m_op_basis_product.cols <= %(ss)s.m_basis_vectors.cols && %(ss)s.m_basis_vectors.cols <= NMAX && "
+                 "self->m_initial_search_space_size <= %(ss)s.m_basis_vectors.cols") % {"ss": ssp}
+    RP_INV = RP_SHAPES.replace("self->", rp + ".") + (" && VEC_SIZE(%(rp)s.m_values) == %(ss)s.m_op_basis_product.cols && %(rp)s.m_vectors.rows == self->op_n && "
+                                                      "self->m_initial_search_space_size <= VEC_SIZE(%(rp)s.m_values) && VEC_SIZE(%(rp)s.m_root_converged) == VEC_SIZE(%(rp)s.m_values)") % {"rp": rp, "ss": ssp}
+    RP_INV = capify_text(RP_INV)
+    inv = ("__CPROVER_assigns(self->niter_, self->m_info, verif_exc, g_ops, g_clock, g_ia, g_ib, g_va, g_vb, g_w, " + ", ".join(CWG_SCALARS) + ", " +
+           ", ".join("__CPROVER_object_whole(%s)" % o for o in CWG_OBJS) + ") "
+           "__CPROVER_loop_invariant(0 <= self->niter_ && self->niter_ <= maxit - 1 && verif_exc == 0) "   # the body of iteration maxit - 1 always leaves through a break
+           "__CPROVER_loop_invariant(0 <= g_clock && g_clock <= old_clock_l + self->niter_ && 0 <= g_ops && g_ops <= old_ops_l + self->niter_) "
+           "__CPROVER_loop_invariant(%s) "
+           "__CPROVER_loop_invariant(self->niter_ != 0 || (%s.m_basis_vectors.cols <= self->m_max_search_space_size && %s.m_op_basis_product.cols == 0)) "
+           "__CPROVER_loop_invariant(self->niter_ == 0 || (%s)) "
+           "__CPROVER_decreases(maxit - self->niter_)") % (SHAPE_INV, ssp, ssp, RP_INV)
+    t, R = cgen.emit(f, "compute_with_guess", ret_c="Index", self_type="JDS", members=JD_MEMBERS,
+                     param_types={"initial_space": "Mat", "tol": "Scalar"},
+                     extra_rules=[("ss.size", r"self->m_search_space\.size\(\)", "self->m_search_space.m_basis_vectors.cols", {"min": 1}),
+                                  ("ss.restart", r"self->m_search_space\.restart\(self->m_ritz_pairs, ([^;]+)\);", r"ss_restart(&self->m_search_space, &self->m_ritz_pairs, \1);", {"max": 1}),
+                                  ("ss.update", r"self->m_search_space\.update_operator_basis_product\(self->m_matrix_operator\);", "ss_update_operator_basis_product(&self->m_search_space, self->op);", {"max": 1}),
+                                  ("ss.init", r"self->m_search_space\.initialize_search_space\((\w+)\);", r"ss_initialize_search_space(&self->m_search_space, \1);", {"max": 1}),
+                                  ("ss.extend", r"self->m_search_space\.extend_basis\((\w+)\);", r"ss_extend_basis(&self->m_search_space, \1);", {"max": 1}),
+                                  ("rp.cep", r"Eigen::ComputationInfo (\w+) = self->m_ritz_pairs\.compute_eigen_pairs\(self->m_search_space\);",
+                                   r"int \1 = rp_compute_eigen_pairs(&self->m_ritz_pairs, &self->m_search_space); self->m_ritz_pairs.g_sorted_sel = -1; FIRST_SMALL_PROBLEM_SUCCEEDS(self->niter_, \1);", {"max": 1}),
+                                  ("eig-success", r"Eigen::ComputationInfo::Success|Eigen::Success", "0", {"min": 1}),
+                                  ("rp.sort", r"self->m_ritz_pairs\.sort\((\w+)\);", r"rp_sort(&self->m_ritz_pairs, \1); self->m_ritz_pairs.g_sorted_sel = \1;", {"max": 1}),
+                                  ("rp.cc", r"self->m_ritz_pairs\.check_convergence\(", "check_convergence(&self->m_ritz_pairs, ", {"max": 1}),
+                                  ("bool", r"\bbool\b", "_Bool", {"min": 0}),
+                                  ("derived", r"Derived& derived = (?:static_cast<Derived&>|\(Derived&\))\(\*this\);", "", {"min": 0}),
+                                  ("ccv", r"Matrix (\w+) = derived\.calculate_correction_vector\(\);", r"Mat \1 = calculate_correction_vector(self);", {"max": 1}),
+                                  ("count", r"return \(self->m_ritz_pairs\.converged_eigenvalues\(\)\)\.template cast<Index>\(\)\.head\(([^()]+)\)\.sum\(\);", r"return HEAD_COUNT(&self->m_ritz_pairs, \1);", {"max": 1})],
+                     loop_contracts={0: inv}, contract=spec.frame_contract(),
+                     maythrow=["ss_update_operator_basis_product", "rp_sort"],
+                     pre_body=" const Index old_clock_l = g_clock; const Index old_ops_l = g_ops;")
+    report["JDSymEigsBase::compute_with_guess"] = R.fired
+    return CWG_DEFS + t, spec
+
+
+
+# --------------------------------------------------------------------------- constructor (+ check_argument, initialize), compute(), accessors
+
+def f_ctor(report):
+    fc = X.locate(JD, "JDSymEigsBase", cls="JDSymEigsBase", ordinal=0)
+    f1 = X.locate(JD, "check_argument", cls="JDSymEigsBase")
+    f2 = X.locate(JD, "initialize", cls="JDSymEigsBase")
+    opd = [("op.dim", r"self->m_matrix_operator\.(rows|cols)\(\)", "self->op_n", {"min": 1})]
+    t1, R1 = cgen.emit(f1, "jd_check_argument", ret_c="void", self_type="JDS", members=JD_MEMBERS, extra_rules=opd, static=True)
+    t2, R2 = cgen.emit(f2, "jd_initialize", ret_c="void", self_type="JDS", members=JD_MEMBERS, extra_rules=opd, static=True)
+    spec = FSpec("jd_ctor", "void", [("JDS *", "self"), ("Op *", "op"), ("Index", "nev"), ("Index", "nvec_init"), ("Index", "nvec_max")],
+                 pre=[("matrix size and arguments are machine integers away from overflow", "0 <= op->n && op->n <= NMAX && -NMAX <= nev && nev <= NMAX && -NMAX <= nvec_init && nvec_init <= NMAX && -NMAX <= nvec_max && nvec_max <= NMAX")],
+                 post=[("accepted <=> 1 <= nev <= n - 1", "1 <= nev && nev <= op->n - 1"),
+                       (JD_INV_DOC + " - for EVERY accepted (nev, nvec_init, nvec_max), in particular the defaults (2 nev, 10 nev)", JD_INV),
+                       ("nev is stored unchanged and sizes inside the quantifier of the property (nev <= initial, initial + nev <= n, initial <= maximal < n) are kept as given",
+                        "self->m_number_eigenvalues == nev && (!(nev <= nvec_init && nvec_init + nev <= op->n && nvec_init <= nvec_max && nvec_max < op->n) || "
+                        "(self->m_initial_search_space_size == nvec_init && self->m_correction_size == nev && self->m_max_search_space_size == nvec_max))"),
+                       ("status of a new solver is NotComputed", "self->m_info == CompInfo_NotComputed && self->niter_ == 0")],
+                 exc_post=[("rejected with invalid_argument <=> not (1 <= nev <= n - 1)", "verif_exc == EXC_invalid_argument && !(1 <= nev && nev <= op->n - 1)")],
+                 frame=["self->op_n", "self->op", "self->niter_", "self->m_number_eigenvalues", "self->m_max_search_space_size", "self->m_initial_search_space_size", "self->m_correction_size", "self->m_info"],
+                 may_throw=[1], real=JD + ":JDSymEigsBase(op, nev, nvec_init, nvec_max)")
+    # default member initialisers of the class (niter_ = 0, m_info = NotComputed) are part of construction
+    raw, st = X.load(JD)
+    if not re.search(r"Index niter_ = 0;", st) or not re.search(r"CompInfo m_info = CompInfo::NotComputed;", st):
+        raise X.ExtractionBreak("JDSymEigsBase: default member initialisers niter_ = 0 / m_info = NotComputed not found")
+    t, R = cgen.emit(fc, "jd_ctor", ret_c="void", self_type="JDS", members=JD_MEMBERS, param_types={"op": "Op *"}, init_skip=["m_matrix_operator"],
+                     pre_body=" self->op = op; self->op_n = op->n; self->niter_ = 0; self->m_info = CompInfo_NotComputed;",
+                     extra_rules=[("op.rows", r"\bop\.(rows|cols)\(\)", "op->n", {"min": 1}),
+                                  ("check_argument", r"(?<![\w>])check_argument\(\);", "jd_check_argument(self);", {"max": 1}),
+                                  ("initialize", r"(?<![\w>])initialize\(\);", "jd_initialize(self);", {"max": 1})],
+                     contract=spec.frame_contract(), maythrow=["jd_check_argument"])
+    c2 = X.locate(JD, "JDSymEigsBase", cls="JDSymEigsBase", ordinal=1)
+    if " ".join(c2.inits.split()) != "JDSymEigsBase(op, nev, 2 * nev, 10 * nev)":
+        raise X.ExtractionBreak("JDSymEigsBase(op, nev) no longer delegates to (op, nev, 2 * nev, 10 * nev)")
+    dc = X.locate(DV, "DavidsonSymEigsSolver", cls="DavidsonSymEigsSolver", ordinal=0)
+    if "JDSymEigsBase<DavidsonSymEigsSolver<OpType>, OpType>(op, nev, nvec_init, nvec_max)" not in " ".join(dc.inits.split()):
+        raise X.ExtractionBreak("DavidsonSymEigsSolver constructor no longer forwards (op, nev, nvec_init, nvec_max) to the base class")
+    report["JDSymEigsBase::constructor"] = dict(R.fired, check_argument=R1.fired, initialize=R2.fired)
+    return t1 + t2 + t, spec, dc
+
+
+def f_davidson_ctor_body(report, dc):
+    """The derived constructor's own body: m_diagonal gets n entries, entry i read from op(i, i) with i < n."""
+    ml = re.search(r"for \(Index (\w+) = 0; \1 < op\.rows\(\); (?:\1\+\+|\+\+\1)\)", dc.body)
+    if not ml:
+        raise X.ExtractionBreak("DavidsonSymEigsSolver constructor: diagonal loop not recognised")
+    I = ml.group(1)
+    spec = FSpec("davidson_ctor_body", "void", [("JDS *", "self"), ("Op *", "op")],
+                 pre=[("base class constructed on this operator", "self->op_n == op->n && 1 <= op->n && op->n <= NMAX")],
+                 post=[("the stored diagonal has n entries", "VEC_SIZE(self->m_diagonal) == self->op_n")],
+                 frame=["self->m_diagonal"], real=DV + ":DavidsonSymEigsSolver(op, nev, nvec_init, nvec_max) body")
+    inv = ("__CPROVER_assigns(%(I)s, __CPROVER_object_whole(self->m_diagonal)) __CPROVER_loop_invariant(0 <= %(I)s && %(I)s <= op->n) __CPROVER_decreases(op->n - %(I)s)") % {"I": I}
+    import copy
+    f = copy.copy(dc)
+    f.inits = ""
+    t, R = cgen.emit(f, "davidson_ctor_body", ret_c="void", self_type="JDS", members=JD_MEMBERS + ["m_diagonal"], param_types={"op": "Op *", "nev": "Index", "nvec_init": "Index", "nvec_max": "Index"},
+                     pre_rules=[THIS_RULE],
+                     extra_rules=OPDIM_RULES + [("resize", r"self->m_diagonal\.resize\(([^;]+)\);", r"self->m_diagonal = VEC_NEW(\1);", {"max": 1}),
+                                                ("diag", r"self->m_diagonal\((\w+)\) = op\((\w+), (\w+)\);",
+                                                 r"__CPROVER_assert(0 <= \2 && \2 < op->n && 0 <= \3 && \3 < op->n, @Q@operator coefficient (i, j) within the matrix@Q@); self->m_diagonal[\1] = nondet_Scalar();", {"max": 1})],
+                     loop_contracts={0: inv}, contract=spec.frame_contract())
+    t = t.replace("(JDS *self, Op * op, Index nev, Index nvec_init, Index nvec_max)", "(JDS *self, Op * op)")
+    report["DavidsonSymEigsSolver::constructor body"] = R.fired
+    return t, spec
+
+
+def f_compute(report, s_si, s_cw):
+    f = X.locate(JD, "compute", cls="JDSymEigsBase")
+    spec = FSpec("jd_compute", "Index", [("JDS *", "self"), ("SortRule", "selection"), ("Index", "maxit"), ("Scalar", "tol")],
+                 pre=[p_ for p_ in s_cw.pre if "initial space" not in p_[0]],
+                 post=list(s_cw.post), exc_post=list(s_cw.exc_post), frame=list(s_cw.frame), frame_objs=list(s_cw.frame_objs), may_throw=[1, 7], real=JD + ":compute")
+    t, R = cgen.emit(f, "jd_compute", ret_c="Index", self_type="JDS", members=JD_MEMBERS, param_types={"tol": "Scalar"},
+                     extra_rules=[("derived", r"Derived& derived = (?:static_cast<Derived&>|\(Derived&\))\(\*this\);", "", {"min": 0}),
+                                  ("setup", r"Matrix (\w+) = derived\.setup_initial_search_space\((\w+)\);", r"Mat \1 = setup_initial_search_space(self, \2);", {"max": 1}),
+                                  ("cwg", r"return compute_with_guess\(", "return compute_with_guess(self, ", {"max": 1})],
+                     contract=spec.frame_contract(), maythrow=["setup_initial_search_space"])
+    report["JDSymEigsBase::compute"] = R.fired
+    return t, spec
+
+
+def f_accessors(report):
+    """eigenvalues() = ritz_values().head(nev); eigenvectors() = ritz_vectors().leftCols(nev): index-safe given the exit state of compute()."""
+    out = []
+    for nm, member, chk in (("eigenvalues", "m_values", "head"), ("eigenvectors", "m_vectors", "leftCols")):
+        f = X.locate(JD, nm, cls="JDSymEigsBase")
+        body = " ".join(f.body.split())
+        acc = {"eigenvalues": "ritz_values", "eigenvectors": "ritz_vectors"}[nm]
+        m = re.match(r"^return m_ritz_pairs\.%s\(\)\.%s\((\w+)\);$" % (acc, chk), body)
+        if not m:
+            raise X.ExtractionBreak("JDSymEigsBase::%s() is no longer `return m_ritz_pairs.%s().%s(n);`" % (nm, acc, chk))
+        out.append((nm, m.group(1)))
+    report["JDSymEigsBase accessors"] = dict(out)
+    c = ("#line 1 \"harness/accessors\"\nvoid h(void) {\n" + ALLOC_JD +
+         "  __CPROVER_assume(VEC_SIZE(self->m_ritz_pairs.m_values) >= self->m_number_eigenvalues && self->m_ritz_pairs.m_vectors.cols >= self->m_number_eigenvalues && self->m_number_eigenvalues >= 1);   /* exit state of compute(), proved in jd.compute_with_guess */\n"
+         "  SEG_CHECK(self->m_ritz_pairs.m_values, self->%s);   /* eigenvalues() */\n  NCOLS_CHECK(self->m_ritz_pairs.m_vectors, self->%s);   /* eigenvectors() */\n  CANARY();\n}\n" % (out[0][1], out[1][1]))
+    return c
 
 
 def base_text():
@@ -225,6 +976,47 @@ def build(tier):
     t_so, s_so = f_sort(report)
     G("sort", base + skel.stub_argsort() + t_so + s_so.harness("h", ALLOC_RP + "  SortRule selection = nondet_int();", "self, selection"),
       "rp_sort", [RPH + ":sort"], expect=["loop_invariant_step", "assigns"], note="argsort replaced by its contract (proved in C18)")
+
+    ss_t, ss_s = f_search_space(report)
+    sbase = base + SHAPE_DEFS
+    G("ss.initialize_search_space", sbase + ss_t["initialize_search_space"] + ss_s["initialize_search_space"].harness("h", ALLOC_SS + "  Mat initial_vectors = MAT_NEW(ND_SIZE(), ND_SIZE());", "self, initial_vectors"),
+      "ss_initialize_search_space", [SSH + ":initialize_search_space"])
+    G("ss.update_operator_basis_product", sbase + ss_t["update_operator_basis_product"] + ss_s["update_operator_basis_product"].harness("h", ALLOC_SS + "  Op opv; Op *op = &opv; op->n = nondet_Index();", "self, op"),
+      "ss_update_operator_basis_product", [SSH + ":update_operator_basis_product"], expect=["assigns", "Eigen block assertion", "operator argument"])
+    G("ss.restart", sbase + ss_t["restart"] + ss_s["restart"].harness("h", ALLOC_SS + ALLOC_RPC + "  Index size = nondet_Index();", "self, ritz_pairs, size"),
+      "ss_restart", [SSH + ":restart"], expect=["assigns", "Eigen block assertion", "product dimensions agree"])
+    G("ss.extend_basis", sbase + ss_t["extend_basis"] + ss_s["extend_basis"].harness("h", ALLOC_SS + "  Mat new_vect = MAT_NEW(ND_SIZE(), ND_SIZE());", "self, new_vect"),
+      "ss_extend_basis", [SSH + ":extend_basis", SSH + ":append_new_vectors_to_basis"], expect=["assigns", "Eigen block assertion"])
+
+    t_ce, s_ce = f_compute_eigen_pairs(report)
+    G("compute_eigen_pairs", sbase + t_ce + s_ce.harness("h", ALLOC_RP + ALLOC_SS.replace("SS Sv; SS *self = &Sv;", "SS Sv; SS *search_space = &Sv;").replace("self->", "search_space->") + "  g_clock = nondet_Index();", "self, search_space"),
+      "rp_compute_eigen_pairs", [RPH + ":compute_eigen_pairs"], expect=["assigns", "product dimensions agree"],
+      note="Eigen::SelfAdjointEigenSolver assumed: n values, n x n vectors, column j belongs to value j, info() in {Success, NumericalIssue, NoConvergence}")
+    t_cv, s_cv = f_calc_correction(report)
+    G("calculate_correction_vector", sbase + t_cv + s_cv.harness("h", ALLOC_JD, "self"), "calculate_correction_vector", [DV + ":calculate_correction_vector"],
+      expect=["loop_invariant_step", "Eigen index assertion", "DPR correction"])
+    t_si, s_si = f_setup_initial(report)
+    G("setup_initial_search_space", sbase + skel.stub_argsort() + t_si + s_si.harness("h", ALLOC_JD + "  SortRule selection = nondet_int();", "self, selection"), "setup_initial_search_space",
+      [DV + ":setup_initial_search_space"], expect=["loop_invariant_step", "Eigen index assertion"], note="argsort replaced by its contract (C18)")
+    t_cw, s_cw = f_compute_with_guess(report, None)
+    stubs = "".join(cap_stub(sp, CAP_MATS) for sp in (ss_s["initialize_search_space"], ss_s["update_operator_basis_product"], ss_s["restart"], ss_s["extend_basis"], s_ce, s_so, s_cc)) + \
+        cap_stub(s_cv, CAP_MATS, extra="ret.coltag = g_corr_coltag; ret.colbuf = NULL; ret.cell = (Scalar)0;")
+    G("compute_with_guess", sbase.replace('#include "skel.h"', '#define CAPMODE 1\n#include "skel.h"', 1) + CAP_GLOBALS + sort_order_defs() + stubs + t_cw + s_cw.harness("h", ALLOC_JD_CAP + "  Mat initial_space = MAT_NEW(ND_SIZE(), ND_SIZE()); SortRule selection = nondet_int(); Index maxit = nondet_Index(); Scalar tol = nondet_Scalar();",
+                                                          "self, initial_space, selection, maxit, tol"),
+      "compute_with_guess", [JD + ":compute_with_guess"], expect=["loop_invariant_step", "assigns"], timeout=900,
+      note="all eight callees replaced by their contracts (each proved in its own group, SelfAdjointEigenSolver and the orthogonalisation assumed)")
+
+    t_cp, s_cp = f_compute(report, s_si, s_cw)
+    G("compute", sbase.replace('#include "skel.h"', '#define CAPMODE 1\n#include "skel.h"', 1) + CAP_GLOBALS + sort_order_defs() + cap_stub(s_si, CAP_MATS, extra="ret.coltag = g_corr_coltag; ret.colbuf = NULL; ret.cell = (Scalar)0;") +
+      cap_stub(s_cw, CAP_MATS) + t_cp + s_cp.harness("h", ALLOC_JD_CAP + "  SortRule selection = nondet_int(); Index maxit = nondet_Index(); Scalar tol = nondet_Scalar();", "self, selection, maxit, tol"),
+      "jd_compute", [JD + ":compute"], note="setup_initial_search_space and compute_with_guess replaced by their contracts: the constructor's invariant is all compute() needs")
+    t_ct, s_ct, dc = f_ctor(report)
+    G("ctor", sbase + t_ct + s_ct.harness("h", "  JDS Jv; JDS *self = &Jv; Op opv; Op *op = &opv; op->n = nondet_Index(); Index nev = nondet_Index(), nvec_init = nondet_Index(), nvec_max = nondet_Index();", "self, op, nev, nvec_init, nvec_max"),
+      "jd_ctor", [JD + ":JDSymEigsBase", JD + ":check_argument", JD + ":initialize"], note="check_argument() and initialize() are the real callees")
+    t_db, s_db = f_davidson_ctor_body(report, dc)
+    G("davidson.ctor.body", sbase + t_db + s_db.harness("h", ALLOC_JD, "self, op"), "davidson_ctor_body", [DV + ":DavidsonSymEigsSolver"], expect=["loop_invariant_step", "operator coefficient"])
+    groups.append(Group("jd.accessors", sbase + f_accessors(report), "h", loop_contracts=False, solver="cadical", defines=["SCALAR_DOUBLE"], functions=[JD + ":eigenvalues", JD + ":eigenvectors"],
+                        expect_classes=["Eigen block assertion"], note="head(nev) / leftCols(nev) against the exit state of compute()"))
 
     meta = {"level": "proof", "trusted_base": ["cbmc 6.11.0 dfcc", "cadical", "extractor"],
             "assumptions": ["Eigen expression values are not modelled (column norms, small eigenproblem, products are nondeterministic)",
